@@ -142,15 +142,23 @@ def _run(ctx):
 # --------------------------------------------------------------------------------------------
 
 def _no_reader_bit(ctx):
-    fn = ctx.fn1(r'^atomicsignal::AtomicSignal::set_reader$')
+    """the bit of the signal word that says "no stream is left": the mask LoadedSignal::get_reader tests (how the bit
+    is raised is the business of the setter rule W10)"""
+    from rules_extra import _bit_test_const
+    fn = ctx.fn1(r'^atomicsignal::LoadedSignal::get_reader$')
     g = ctx.graph(fn)
-    ors = g.x.atoms_on('AtomicSignal.flags', ops={'fetch_or'})
-    if len(ors) != 1:
-        raise CheckError('anchor: AtomicSignal::set_reader must contain exactly one fetch_or on flags')
-    v = g.strip(g.call_args(ors[0].nid)[1])
-    if v[0] != 'c' or v[1] is None:
-        raise CheckError('anchor: no-reader bit is not a constant')
-    return str(v[1])
+    m = _bit_test_const(g, g.ev_local(g.root_inst, 0))
+    if m is None:
+        fn = ctx.fn1(r'^atomicsignal::AtomicSignal::set_reader$')
+        g = ctx.graph(fn)
+        ors = g.x.atoms_on('AtomicSignal.flags', ops={'fetch_or'})
+        if len(ors) == 1:
+            v = g.strip(g.call_args(ors[0].nid)[1])
+            if v[0] == 'c' and v[1] is not None:
+                m = str(v[1])
+    if m is None:
+        raise CheckError('anchor: the no-reader bit of the signal word could not be determined (get_reader / set_reader)')
+    return str(m)
 
 
 def _head(x):
